@@ -162,6 +162,9 @@ type readSlot string
 
 // Call returns the value of a variable in the instance.
 func (rs readSlot) Call(s *slip.Scope, args slip.List, depth int) (value slip.Object) {
+	if len(args) < 1 {
+		slip.ErrorPanic(s, depth, "Too few arguments to the reader of slot %s. 1 expected but got 0.", string(rs))
+	}
 	if inst, _ := args[0].(slip.Instance); inst != nil {
 		if value, _ = inst.SlotValue(slip.Symbol(rs)); value == slip.Unbound {
 			value = slotUnbound(s, inst, slip.Symbol(rs), depth)
@@ -191,7 +194,10 @@ func (sd *SlotDef) defWriterMethods(cname string) {
 type writeSlot string
 
 // Call returns the value of a variable in the instance.
-func (ws writeSlot) Call(_ *slip.Scope, args slip.List, _ int) (value slip.Object) {
+func (ws writeSlot) Call(s *slip.Scope, args slip.List, depth int) (value slip.Object) {
+	if len(args) < 2 {
+		slip.ErrorPanic(s, depth, "Too few arguments to the writer of slot %s. 2 expected but got %d.", string(ws), len(args))
+	}
 	if inst, _ := args[0].(slip.Instance); inst != nil {
 		_ = inst.SetSlotValue(slip.Symbol(ws), args[1])
 	}
